@@ -659,6 +659,19 @@ func (m *model) add(r *common.Rng, tag *string, k *kind, mode int) {
 	m.Fields = append(m.Fields, f)
 }
 
+// revalue draws new values for every field of an existing model type (second use of the same
+// type). A string field tagged as the key keeps getting a non-empty value most of the time.
+func (m *model) revalue(r *common.Rng, catalog bool) {
+	for i := range m.Fields {
+		f := &m.Fields[i]
+		mode := pickMode(r)
+		if catalog && f.Tag != nil && head(*f.Tag) == "key" && f.Kind.name == "string" && !r.Chance(4) {
+			mode = 2
+		}
+		f.Val = genValue(r, f.Kind, mode)
+	}
+}
+
 func genCatalogModel(r *common.Rng) (*model, string) {
 	m := &model{}
 	shapeKind := []string{"keyonly", "single", "body", "body", "body", "chaos"}[r.Intn(6)]
@@ -977,21 +990,40 @@ func safely(f func() error) (err error, panicked bool) {
 	return f(), false
 }
 
-func runCatalog(sdk hydraidego.Hydraidego, r *common.Rng, i int) result {
+var catalogAPIs = []string{"CatalogSave+CatalogRead", "CatalogSave+CatalogReadMany", "", "CatalogCreate+CatalogRead"}
+
+func runCatalog(sdk hydraidego.Hydraidego, r *common.Rng, i int) []result {
 	m, shapeKind := genCatalogModel(r)
 	msgp := r.Bool()
-	api := r.Intn(2)
-	sw := swampName(msgp, "cat", i)
-	res := result{descr: map[string]interface{}{"api": []string{"CatalogSave+CatalogRead", "CatalogSave+CatalogReadMany"}[api],
-		"msgpack": msgp, "model": m.descr(), "generator": shapeKind}}
-	res.hist = append(res.hist, "catalog:"+shapeKind)
+	api := []int{0, 0, 1, 1, 3}[r.Intn(5)]
+	out := []result{execCatalog(sdk, m, shapeKind, msgp, api, swampName(msgp, "cat", i))}
+	// second (and third) use of the same struct type with other values, other encoding, other API
+	for n := 1; n <= 2 && r.Chance(25); n++ {
+		m.revalue(r, true)
+		msgp, api = r.Bool(), []int{0, 1, 3}[r.Intn(3)]
+		out = append(out, execCatalog(sdk, m, shapeKind+"+reuse", msgp, api, swampName(msgp, "cat", i+n*1000000)))
+	}
+	return out
+}
+
+// execCatalog saves one instance of the model into a fresh swamp and reads it back.
+func execCatalog(sdk hydraidego.Hydraidego, m *model, shapeKind string, msgp bool, api int, sw sdkname.Name) result {
+	res := result{descr: map[string]interface{}{"api": catalogAPIs[api],
+		"msgpack": msgp, "model": m.descr(), "generator": shapeKind, "go_type": m.Type.String()}}
+	res.hist = append(res.hist, "catalog:"+shapeKind, "api:"+catalogAPIs[api])
 	inst := m.instance()
 	cp := &capture{}
 	ctx, cancel := context.WithTimeout(context.WithValue(context.Background(), capKey{}, cp), 30*time.Second)
 	defer cancel()
 	var saveTerm string
 	readTerm := "ReadErr"
-	err, panicked := safely(func() error { _, e := sdk.CatalogSave(ctx, sw, inst.Interface()); return e })
+	err, panicked := safely(func() error {
+		if api == 3 {
+			return sdk.CatalogCreate(ctx, sw, inst.Interface())
+		}
+		_, e := sdk.CatalogSave(ctx, sw, inst.Interface())
+		return e
+	})
 	if err != nil {
 		res.descr["save_error"] = err.Error()
 		if panicked {
@@ -1012,7 +1044,7 @@ func runCatalog(sdk hydraidego.Hydraidego, r *common.Rng, i int) result {
 		got := reflect.New(m.Type)
 		var rerr error
 		var rp bool
-		if api == 0 {
+		if api != 1 {
 			rerr, rp = safely(func() error { return sdk.CatalogRead(ctx, sw, kv.Key, got.Interface()) })
 		} else {
 			n := 0
@@ -1039,12 +1071,21 @@ func runCatalog(sdk hydraidego.Hydraidego, r *common.Rng, i int) result {
 	return res
 }
 
-func runProfile(sdk hydraidego.Hydraidego, r *common.Rng, i int) result {
+func runProfile(sdk hydraidego.Hydraidego, r *common.Rng, i int) []result {
 	m := genProfileModel(r)
 	msgp := r.Bool()
-	sw := swampName(msgp, "prof", i)
-	res := result{descr: map[string]interface{}{"api": "ProfileSave+ProfileRead", "msgpack": msgp, "model": m.descr()}}
-	res.hist = append(res.hist, "profile")
+	out := []result{execProfile(sdk, m, "profile", msgp, swampName(msgp, "prof", i))}
+	if r.Chance(25) {
+		m.revalue(r, false)
+		msgp = r.Bool()
+		out = append(out, execProfile(sdk, m, "profile+reuse", msgp, swampName(msgp, "prof", i+1000000)))
+	}
+	return out
+}
+
+func execProfile(sdk hydraidego.Hydraidego, m *model, label string, msgp bool, sw sdkname.Name) result {
+	res := result{descr: map[string]interface{}{"api": "ProfileSave+ProfileRead", "msgpack": msgp, "model": m.descr(), "go_type": m.Type.String()}}
+	res.hist = append(res.hist, label)
 	inst := m.instance()
 	cp := &capture{}
 	ctx, cancel := context.WithTimeout(context.WithValue(context.Background(), capKey{}, cp), 30*time.Second)
@@ -1249,7 +1290,7 @@ func main() {
 		}
 	}
 
-	nCat, nProf, nInsp := 1500, 500, 300
+	nCat, nProf, nInsp := 1200, 400, 300
 	if args.Tier == "thorough" {
 		nCat, nProf, nInsp = 16000, 5000, 2000
 	}
@@ -1270,12 +1311,42 @@ func main() {
 		m, _ := genCatalogModel(ri)
 		results = append(results, runInspectProbe(m))
 	}
-	// 4. catalog and profile save/read (parallel, deterministic per index)
+	// 4. named model types, sequentially: per type an inspect probe, then three save/read rounds
+	//    with zero / boundary / random values; the order of the types changes with the seed
+	lib := namedLibrary()
+	rn := base.Fork("named")
+	for i := len(lib) - 1; i > 0; i-- {
+		j := rn.Intn(i + 1)
+		lib[i], lib[j] = lib[j], lib[i]
+	}
+	nRounds := 3
+	if args.Tier == "thorough" {
+		nRounds = 8
+	}
+	for round := 0; round < nRounds; round++ {
+		for ti, nt := range lib {
+			m := modelOfType(nt.typ)
+			if round == 0 {
+				results = append(results, runInspectProbe(m))
+			}
+			m.revalue(rn, !nt.profile)
+			msgp := rn.Bool()
+			idx := 5000000 + round*1000 + ti
+			var res result
+			if nt.profile {
+				res = execProfile(sdk, m, "named:"+nt.group, msgp, swampName(msgp, "prof", idx))
+			} else {
+				res = execCatalog(sdk, m, "named:"+nt.group, msgp, []int{0, 1, 3}[rn.Intn(3)], swampName(msgp, "cat", idx))
+			}
+			results = append(results, res)
+		}
+	}
+	// 5. catalog and profile save/read (parallel, deterministic per index)
 	seeds := make([]uint64, nCat+nProf)
 	for i := range seeds {
 		seeds[i] = base.U64()
 	}
-	out := make([]result, nCat+nProf)
+	out := make([][]result, nCat+nProf)
 	common.Parallel(nCat+nProf, 16, func(i int) {
 		r := common.NewRng(seeds[i], "case")
 		if i < nCat {
@@ -1284,7 +1355,9 @@ func main() {
 			out[i] = runProfile(sdk, r, i)
 		}
 	})
-	results = append(results, out...)
+	for _, o := range out {
+		results = append(results, o...)
+	}
 
 	for _, res := range results {
 		run.Add(res.term, res.descr, res.nontrivial)
